@@ -96,3 +96,49 @@ Definition wrapped_theorem_instance (c : wcase) : bool :=
   negb (wrapped_guard c) ||
   mres_is xnode_eqb (doc_wrapped_body (w_schema c) (w_xstq c) (w_wrapper c) (w_args c))
                     (ref_doc_wrapped (w_schema c) (w_xstq c) (w_wrapper c) (w_args c)).
+
+(* ------------------------------------------------------------------ *)
+(* KNOWN DEFECT of the unchanged code (C01:toplevel-param-in-optional-container-sent-empty):
+   a top-level parameter that lies inside an optional container of the wrapper
+   type, is not minOccurs=0 itself and is not a choice branch, left None.  The
+   reference (ref_param) omits it - an absent optional value -, the code
+   (marshal_param: no ancestry, anc = false) writes an empty / nil / default
+   element.  [param_conforming] excludes exactly these arguments. *)
+Definition toplevel_quirk (c : fchild) (v : value) : bool :=
+  match c with
+  | FE d anc ch => anc && negb (e_opt d) && negb ch && is_none v
+  | FAny _ => false
+  end.
+
+(* the reference with the defect admitted for those parameters only *)
+Definition ref_param_q (S : schema) (xstq : bool) (c : fchild) (v : value) : option (list xnode) :=
+  if toplevel_quirk c v
+  then match c with FE d _ _ => ref_elem S xstq d false v | FAny _ => None end
+  else ref_param S xstq c v.
+
+Definition ref_doc_wrapped_q (S : schema) (xstq : bool) (wrapper : edecl) (args : list value) : option xnode :=
+  match declared_type S wrapper with
+  | None => None
+  | Some wt =>
+      let params := flat_elems S wt in
+      if negb (Nat.eqb (length params) (length args)) then None else
+      match oconcat (map (fun pa => ref_param_q S xstq (fst pa) (snd pa)) (combine params args)) with
+      | Some kids => Some (XN (e_ns wrapper) (e_name wrapper) [] None kids)
+      | None => None
+      end
+  end.
+
+Definition has_toplevel_quirk (S : schema) (wrapper : edecl) (args : list value) : bool :=
+  match declared_type S wrapper with
+  | None => false
+  | Some wt => existsb (fun pa => toplevel_quirk (fst pa) (snd pa)) (combine (flat_elems S wt) args)
+  end.
+
+(* a request that misses the reference ONLY by that defect: some argument is of
+   the class, and the request is the reference with the defect admitted there *)
+Definition wrapped_quirk_explained (c : wcase) : bool :=
+  has_toplevel_quirk (w_schema c) (w_wrapper c) (w_args c) &&
+  match ref_doc_wrapped_q (w_schema c) (w_xstq c) (w_wrapper c) (w_args c), w_impl c with
+  | Some x, IOk y => xnode_eqb x y
+  | _, _ => false
+  end.
